@@ -7,6 +7,7 @@ import (
 	"path/filepath"
 	"sort"
 	"strings"
+	"sync"
 	"testing"
 
 	lib "github.com/corazawaf/libinjection-go"
@@ -88,6 +89,62 @@ const fpClassAlphabet = "kUBEtfn1vso&cA(){}.,:;T?X\\"
 // one case = one table entry (kind = table[/baseline], In = key/name, In2 = expected value for baseline entries)
 func c20Oracle(c ev.Case) Res {
 	cur := currentTablesCached()
+	if strings.HasPrefix(c.Kind, "after_") {
+		// the same predicates on the tables as they are after a detection workload
+		c20Workload()
+		cur = tablesAfterWorkload()
+		c.Kind = c.Kind[6:]
+		r := c20Judge(c, cur)
+		if r.Err != "" {
+			r.Err = "after a workload of detector calls: " + r.Err
+		}
+		if r.Class != "" {
+			r.Class = "after_workload"
+		}
+		return r
+	}
+	return c20Judge(c, cur)
+}
+
+var (
+	c20WorkOnce  sync.Once
+	c20AfterOnce sync.Once
+	c20After     baselineTables
+)
+
+// c20Workload calls both detectors on fixtures, attack-grammar members and XSS vectors in
+// lower, upper and mixed case (sequentially), so that a table that is written to during
+// detection shows its changed content afterwards.
+func c20Workload() {
+	c20WorkOnce.Do(func() {
+		var in []string
+		in = append(in, corp().SQL...)
+		in = append(in, corp().HTML...)
+		att := attackInputs()
+		for i := 0; i < len(att); i += len(att)/400 + 1 {
+			in = append(in, att[i])
+		}
+		vec := xssVectors()
+		for i := 0; i < len(vec); i += len(vec)/400 + 1 {
+			in = append(in, vec[i])
+		}
+		in = append(in, c10Witnesses...)
+		for _, s := range in {
+			for m := 0; m < 3; m++ {
+				v := maskCase(s, make([]bool, len(s)), m, 0)
+				lib.IsSQLi(v)
+				lib.IsXSS(v)
+			}
+		}
+	})
+}
+
+func tablesAfterWorkload() *baselineTables {
+	c20AfterOnce.Do(func() { c20After = currentTables() })
+	return &c20After
+}
+
+func c20Judge(c ev.Case, cur *baselineTables) Res {
 	key := c.In
 	switch c.Kind {
 	case "keyword":
@@ -241,6 +298,36 @@ func TestC20(t *testing.T) {
 	// duplicate names inside the slice-typed lists would shadow each other: report as well
 	p := c.rec.NewPart("all_entries", fmt.Sprintf("%d current entries + %d baseline entries", len(cur.Keywords)+len(cur.Tags)+len(cur.Attrs)+len(cur.Events), len(baseline.Keywords)+len(baseline.Tags)+len(baseline.Attrs)+len(baseline.Events)), false, true, "finite")
 	c.ParRange(p, int64(len(cases)), func(w *Worker, i int64) { w.Judge(cases[i]) })
+	// the same, on the tables as they are after a workload (a table must not change while detecting)
+	c20Workload()
+	after := tablesAfterWorkload()
+	var acases []ev.Case
+	for k := range after.Keywords {
+		acases = append(acases, ev.Case{Kind: "after_keyword", In: k})
+	}
+	for _, k := range after.Tags {
+		acases = append(acases, ev.Case{Kind: "after_tag", In: k})
+	}
+	for k := range after.Attrs {
+		acases = append(acases, ev.Case{Kind: "after_attr", In: k})
+	}
+	for k := range after.Events {
+		acases = append(acases, ev.Case{Kind: "after_event", In: k})
+	}
+	for k, v := range baseline.Keywords {
+		acases = append(acases, ev.Case{Kind: "after_base_keyword", In: k, In2: v})
+	}
+	sort.Slice(acases, func(i, j int) bool {
+		if acases[i].Kind != acases[j].Kind {
+			return acases[i].Kind < acases[j].Kind
+		}
+		return acases[i].In < acases[j].In
+	})
+	p = c.rec.NewPart("all_entries_after_workload", fmt.Sprintf("%d entries of the tables re-read after ~7,000 sequential detector calls in three case modes", len(acases)), false, true, "finite")
+	c.ParRange(p, int64(len(acases)), func(w *Worker, i int64) { w.Judge(acases[i]) })
+	if len(after.Keywords) != len(cur.Keywords) {
+		c.rec.Violate(ev.Case{Kind: "after_keyword", In: "(table size)"}, fmt.Sprintf("the keyword table had %d entries at start and has %d after a workload of detector calls", len(cur.Keywords), len(after.Keywords)))
+	}
 	c.rec.Extra["baseline_commit"] = baseline.Commit
-	c.rec.Require("fingerprint", "baseline_keyword", "baseline_tag", "baseline_attr", "baseline_event", "tag", "attr", "event")
+	c.rec.Require("after_workload", "fingerprint", "baseline_keyword", "baseline_tag", "baseline_attr", "baseline_event", "tag", "attr", "event")
 }
